@@ -177,6 +177,32 @@ def gen(tier, rng):
                     ops.append(O("show", n=1, i=i + 1))
             ops.append(O("close", n=1))
             hs.append(("random-short", ops, ""))
+    # (d4) records survive CLOSE: the file is opened again FOR RANDOM (same or another handle) and read / extended
+    for ws in ([4], [3, 5]):
+        ln = sum(ws)
+        for _ in range(60 if tier == "thorough" else 12):
+            ops = [O("open", n=1, name="C", mode="random", len=ln), O("field", n=1, ws=ws)]
+            written = []
+            for _ in range(rng.randint(1, 4)):
+                r = rng.randint(1, 4)
+                for i in range(len(ws)):
+                    ops.append(O("lset", n=1, i=i + 1, text=S(rng.choice(["a", "bcd", "Longer", "zz", "12345"]))))
+                ops.append(O("put", n=1, r=r))
+                written.append(r)
+            h2 = rng.choice([1, 2])
+            ops += [O("close", n=1), O("open", n=h2, name="C", mode="random", len=ln), O("field", n=h2, ws=ws)]
+            if rng.random() < 0.5:
+                r = rng.randint(1, 5)
+                for i in range(len(ws)):
+                    ops.append(O("lset", n=h2, i=i + 1, text=S(rng.choice(["NEW", "q"]))))
+                ops.append(O("put", n=h2, r=r))
+                written.append(r)
+            for r in sorted(set(written)) + [5]:
+                ops.append(O("get", n=h2, r=r))
+                for i in range(len(ws)):
+                    ops.append(O("show", n=h2, i=i + 1))
+            ops.append(O("close", n=h2))
+            hs.append(("random-reopen", ops, ""))
     # (d3) several FIELD statements for one file: every list describes the record from its first byte
     for first, second, ln in (([8], [4, 4], 8), ([4, 4], [8], 8), ([2, 6], [5, 3], 8), ([8], [4, 4], 16), ([3, 3], [6], 6), ([6], [2, 2, 2], 6)):
         for _ in range(40 if tier == "thorough" else 8):
